@@ -56,6 +56,8 @@ def check_C08(run):
     scen.append(sc_key("shared-slru-cap2-3parts", policy="slru", capacity=2, parts=3, workers=2, ops=2))
     scen.append(sc_key("persession-lru-cap1", shared=False, samePart=True))
     scen.append(sc_key("shared-lru-cap1-sesscache", sessCache=True, sessCap=1, parts=2))
+    scen.append(sc_key("sesscache-cap1-holders+churn", sessCache=True, sessPolicy="lru", sessCap=1, parts=2, workers=3, ops=1, policy="simple", shared=False, churn=True))
+    scen.append(sc_key("shared-simple-revoke-reload", policy="simple", shared=True, parts=1, workers=2, ops=3, revoke=True, R=0, ticks=2, samePart=True))
     if not q:
         scen.append(sc_key("shared-lru-cap1-3workers", workers=3, parts=3))
         scen.append(sc_key("shared-tinylfu-cap100-async", policy="tinylfu", capacity=100, parts=3, workers=3, ops=2))
